@@ -576,8 +576,24 @@ class _Inliner:
         else:
             return [], st
         found = []
+
+        def unconditional_calls(node):
+            """calls evaluated exactly once whenever the statement runs (not inside comprehensions, lambdas, conditional
+            expressions or the right operands of and/or)"""
+            if isinstance(node, (ast.ListComp, ast.SetComp, ast.DictComp, ast.GeneratorExp, ast.Lambda)):
+                return
+            if isinstance(node, ast.IfExp):
+                yield from unconditional_calls(node.test)
+                return
+            if isinstance(node, ast.BoolOp):
+                yield from unconditional_calls(node.values[0])
+                return
+            if isinstance(node, ast.Call):
+                yield node
+            for ch in ast.iter_child_nodes(node):
+                yield from unconditional_calls(ch)
         for root in roots:
-            for c in walk_no_nested(root):
+            for c in unconditional_calls(root):
                 if isinstance(c, ast.Call) and c is not top:
                     r = resolve_helper(self.prog, self.cls, self.module, c, self.public, self.exclude)
                     if r is None or r[0].name in stack or len(stack) >= self.depth:
